@@ -113,6 +113,8 @@ type group struct {
 	build   func(b *builder)
 	once    sync.Once
 	entries []*entry
+	// purity violations observed while recording the first result of each entry
+	firstCallImpure []string
 }
 
 var (
@@ -159,7 +161,13 @@ func (g *group) get() []*entry {
 		g.build(b)
 		for i, e := range g.entries {
 			e.idx = i
+			// the very first call of an entry in this process is where lazily built caches get written into
+			// shared arguments: it runs under the purity oracle too
+			before := snapArgs(e)
 			e.first = e.call()
+			if ch := before.changed(); len(ch) > 0 {
+				g.firstCallImpure = append(g.firstCallImpure, fmt.Sprintf("%s modified its shared argument(s) %v on its first call", e.name, ch))
+			}
 		}
 	})
 	return g.entries
@@ -283,6 +291,9 @@ func TestC18_Sequential(t *testing.T) {
 		es := g.usable()
 		test := "C18_Sequential/" + g.name
 		rep.Note(test, fmt.Sprintf("%d entry points in group %s", len(es), g.name))
+		if len(g.firstCallImpure) > 0 {
+			t.Fatalf("PURITY: %s", strings.Join(g.firstCallImpure, "; "))
+		}
 		sweepSequential(t, test, es)
 		rapid.Check(t, func(rt *rapid.T) { propSequential(rt, test, es) })
 	})
